@@ -17,7 +17,7 @@ CLAIMED = {
   "technique": "machine-checked proof in Coq (membership iff-theorems for effect gate, principal enumeration, whitelist) + generated Principal field table + differential correspondence",
   "text": "25 theorems over the policy model: Effect accepted iff Allow/Deny in any case and stored canonically; principals(st) = exactly the principals named by Principal/NotPrincipal in every shape; non-whitelisted iff string principal not in the whitelist; the three document queries see exactly the Allow statements (parametric in the expansion function); Deny statements are invisible; order-blindness. The Principal field order is regenerated from the live class and re-proved each run. Tied to /repo through 11 public-API surfaces on generated documents.",
   "note": COMMON_NOTE + "Pattern arguments restricted to globs built by regex_from_cf_string and escaped literal prefixes; get_allowed_actions compared for string Action patterns (expansion itself is C09). ASCII capitalize (checked exact for this validator each run).",
- },,
+ },
  "C01": {
   "technique": "machine-checked proof in Coq (executable resolver = declarative big-step semantics, Fn::Sub tokenisation/substitution theorems) + regenerated function table + differential correspondence",
   "text": "resolve (one structurally recursive Gallina function over JSON values, all 16 function keys) is proved sound AND complete w.r.t. an inductive big-step relation Eval with one rule per construct (hence deterministic, any nesting depth, any position in lists/objects); Fn::Sub: tokenisation is a partition of the text, the result is the concatenation of each token rendered exactly once, inserted text is never rescanned, ${!x} -> ${x}, local map first then parameters, unbound kept; undefined Ref/ImportValue/FindInMap/out-of-range or negative Select give the placeholder values. Function-name -> resolver table, NoValue marker and the placeholder/SSM regex texts are regenerated from the live source and re-proved equal to what the model dispatches on. Tied to /repo by resolver.resolve(...) and parse(t).resolve(extra) on generated expressions/templates.",
